@@ -415,7 +415,13 @@ func (g *fastGenerator) fieldItem(field *protogen.Field, fieldname string, messa
 			g.P(`}`)
 
 			g.P("var mapkey ", goTypK)
-			g.P("var mapvalue ", goTypV)
+			if field.Message.Fields[1].Message != nil {
+				// an entry without a value subfield maps the key to an empty message, never to nil;
+				// repeated value subfields are merged into it
+				g.P("mapvalue := &", g.noStarOrSliceType(field.Message.Fields[1]), "{}")
+			} else {
+				g.P("var mapvalue ", goTypV)
+			}
 			g.P(`for iNdEx < postIndex {`)
 
 			g.P(`entryPreIndex := iNdEx`)
@@ -673,7 +679,6 @@ func (g *fastGenerator) unmarshalMapField(varName string, field *protogen.Field)
 		g.P(`return `, protoifacePkg.Ident("UnmarshalOutput"), "{NoUnkeyedLiterals: input.NoUnkeyedLiterals, Flags: input.Flags},", g.Ident("io", `ErrUnexpectedEOF`))
 		g.P(`}`)
 		buf := `dAtA[iNdEx:postmsgIndex]`
-		g.P(varName, ` = &`, g.noStarOrSliceType(field), `{}`)
 		g.decodeMessage(varName, buf, field.Message)
 		g.P(`iNdEx = postmsgIndex`)
 	case protoreflect.BytesKind:
